@@ -21,7 +21,8 @@ import PromModel.Promql.RangeEval
           (finding F12) ONLY when (a) the expression contains topk/bottomk/limitk over a non-selector operand and
           the two step results have the same number of elements and (except limitk) the same multiset of values,
           or (b) it contains sum/avg/stddev/stdvar/quantile over a non-selector operand, the label sets agree and
-          every value pair is within 4 ulp. Everything else is `kind=other`. A `kind=other` violation anywhere in
+          every value pair is within 4 ulp (2^13 ulp when the aggregation is stddev/stdvar, whose final subtraction
+          amplifies the accumulation-order difference). Everything else is `kind=other`. A `kind=other` violation anywhere in
           the case takes precedence over an order-sensitive one.
   model : for expressions of the core language (PromModel/Promql/RangeEval.lean) over finite float data:
           `rangeQuery` (the engine's strategy) for `rq`, `instantQuery` for `iq`/`oq`, over exact rationals; an
@@ -264,11 +265,11 @@ def stepEq (x y : Step) : Bool :=
 
 def ordBits (n : Nat) : Int := if n ≥ 2 ^ 63 then -((n - 2 ^ 63 : Nat) : Int) else (n : Int)
 
-def within4ulp (a b : String) : Bool :=
+def withinUlp (n : Nat) (a b : String) : Bool :=
   valEq a b ||
   match natOfHex? a, natOfHex? b with
   | some x, some y =>
-    a.length = 16 && b.length = 16 && !isNaNBits x && !isNaNBits y && (ordBits x - ordBits y).natAbs ≤ 4
+    a.length = 16 && b.length = 16 && !isNaNBits x && !isNaNBits y && (ordBits x - ordBits y).natAbs ≤ n
   | _, _ => false
 
 def normVal (v : String) : String := if valIsNaN v then "nan" else v
@@ -279,8 +280,11 @@ def sortedVals (x : Step) : List String := (x.map fun e => normVal e.2).mergeSor
 def classify (q : Q) (x y : Step) : String :=
   let tie := q.hasAggOverNonSel kSelOps && x.length = y.length &&
     (q.hasAggOverNonSel ["limitk"] || sortedVals x = sortedVals y)
+  -- stddev/stdvar subtract nearly equal accumulated quantities: the accumulation-order difference is amplified
+  -- by the cancellation (observed: 270 ulp for stddev over timestamps), hence 2^13 ulp (= 2^-40 relative) there
+  let tol : Nat := if q.hasAggOverNonSel ["stddev", "stdvar"] then 8192 else 4
   let ulp := q.hasAggOverNonSel accumOps && x.length = y.length &&
-    (x.zip y).all fun p => p.1.1 = p.2.1 && within4ulp p.1.2 p.2.2
+    (x.zip y).all fun p => p.1.1 = p.2.1 && withinUlp tol p.1.2 p.2.2
   if tie || ulp then "order-sensitive-aggregation" else "other"
 
 def Step.hasStale (x : Step) : Bool := x.any fun e => e.2 = staleHex
